@@ -515,6 +515,13 @@ def _is_redef(f, n, name, did):
     return False
 
 
+def _read_somewhere(f, name, did):
+    c = f._cache.setdefault("neg_read_somewhere", {})
+    if (name, did) not in c:
+        c[(name, did)] = any(_is_read(f, n, name, did) for n in range(len(f.exprs)))
+    return c[(name, did)]
+
+
 def _dead_path(f, bid, eid, name, did):
     elems = f.blocks[bid].elems
     start = elems.index(eid) + 1
@@ -541,6 +548,10 @@ def _dead_path(f, bid, eid, name, did):
                 # giving up (return FALSE / 0) without looking is fine
                 ret = [n for n in blk.elems if f.exprs[n]["k"] == "ret"]
                 if ret and f.exprs[ret[-1]].get("c") and ex.const(f, f.exprs[ret[-1]]["c"][0]) == 0:
+                    continue
+                # a function without a result: leaving it is not a statement about the verdict, as long as the verdict
+                # is looked at where the function goes on (a decode hoisted above an early exit)
+                if not any(f.exprs[n].get("c") for n in ret) and _read_somewhere(f, name, did):
                     continue
                 return True
             if s not in seen:
